@@ -1126,9 +1126,14 @@ func (w *aWorld) anchorUnauthorised(st *refmodel.State) {
 	}
 
 	mallory := w.newKey("")
-	w.advance()
+	t := w.advance()
 
 	p := &opPlan{typ: typ, key: target, kind: "unauth"}
+
+	// an unauthorised operation may declare an anchoring window - open or violated at its anchoring time
+	if T.Draw(3, "unauth.windowed") == 0 {
+		p.from, p.until = w.window(t)
+	}
 
 	if typ != operation.TypeDeactivate {
 		p.patches = w.genPatches(false, false)
